@@ -624,6 +624,49 @@ fn exec_b(seq: &[Cyc], render: bool) -> RunOutput {
     out
 }
 
+/// The id-reuse cycles of driver B on their own, as a part of the checks of C03 ("never acknowledges frames it has not
+/// consumed", "never reset for overrunning the window") and C10 ("streams not addressed by the offending frames keep
+/// their data and state"): a stream the peer has reset, still held with unread frames, must stay silent on its id once
+/// the id has been opened again.
+pub fn run_reuse(args: &Args) -> Report {
+    let pid = args.id.trim_end_matches('R').to_string();
+    let mut rep = Report::new(&pid, &args.tier, "psim", "model_checking");
+    let thorough = args.thorough();
+    let reuse = [Cyc::PeerResetReopenWhileHeld, Cyc::LocalResetReopenWhileHeld, Cyc::PeerResetReopenHeldReadsLater];
+    let mut seqs: Vec<Vec<Cyc>> = Vec::new();
+    for c in reuse {
+        seqs.push(vec![c]);
+        for a in CYCS {
+            seqs.push(vec![a, c]);
+            seqs.push(vec![c, a]);
+            if thorough {
+                for b2 in CYCS {
+                    seqs.push(vec![a, c, b2]);
+                }
+            }
+        }
+    }
+    let mut cases = Vec::new();
+    for s in seqs {
+        let s2 = s.clone();
+        cases.push(Case { try_unbounded: false, max_k: u32::MAX, label: format!("id re-use cycles {s:?}"), exec: Box::new(move |r| exec_b(&s2, r)) });
+    }
+    let plan = Plan {
+        ks: if thorough { vec![0, 1, 2, 3, 4] } else { vec![0, 1, 2, 3] },
+        env: 0,
+        fault: 0,
+        total_wall: Duration::from_secs(if thorough { 600 } else { 60 }),
+        max_execs_per_case: 100_000,
+        required_witnesses: W_REOPEN_WHILE_HELD | W_LOCAL_REOPEN_WHILE_HELD | W_OLD_STREAM_READ_AFTER_REOPEN,
+        adaptive: thorough,
+        witness_names: &[("peer_reopened_id_while_old_stream_held", W_REOPEN_WHILE_HELD), ("local_reopen_while_old_stream_held", W_LOCAL_REOPEN_WHILE_HELD), ("old_stream_read_after_reopen", W_OLD_STREAM_READ_AFTER_REOPEN)],
+    };
+    rep.rule = "psim, real endpoint + raw peer: open/close cycles in which a flow id is opened again (by the peer, or by the local generator) while the application still holds the old stream of that id (reset by the peer, unread frames in it), alone, before and after every other cycle kind; the old stream is then read and dropped: nothing it does may appear on the wire under the re-used id (no Acknowledge of frames the new flow never carried, no Reset of the new flow), and the new flow keeps its data, credit and state".into();
+    rep.assumptions = vec!["re-use is probed at link quiescence".into(), "one poll = one atomic step".into()];
+    run_cases(args, &mut rep, cases, &plan);
+    rep
+}
+
 pub fn run(args: &Args) -> Report {
     let mut rep = Report::new("C06", &args.tier, "psim", "model_checking");
     let thorough = args.thorough();
